@@ -49,7 +49,9 @@ pub fn run_grp() {
         let (hd, body) = match line.find('|') { Some(i) => (&line[..i], &line[i + 1..]), None => (&line[..], "") };
         let hdr: Vec<i64> = hd.split_whitespace().map(|t| t.parse().unwrap()).collect();
         let names: Vec<String> = body.split(';').map(|r| r.split_whitespace().map(|t| t.parse::<u8>().unwrap() as char).collect::<String>()).filter(|s| !s.is_empty()).collect();
-        let nmand = hdr.get(1).copied().unwrap_or(1) as usize;
+        let nmand = hdr.get(1).copied().unwrap_or(1).max(0) as usize;
+        // not a group definition (shrinking reaches such lines): nothing to report
+        if names.is_empty() || nmand == 0 || nmand > names.len() { println!("-6 # fails=-"); continue; }
         let nopt = names.len() - nmand;
         let lc: Vec<String> = names.iter().map(|n| n.to_lowercase()).collect();
         let src = format!("cglue_trait_group!(G, {{ {} }}, {{ {} }});", names[..nmand].join(", "), names[nmand..].join(", "));
